@@ -96,7 +96,7 @@ func sortByAngle(ps [][2]float64, cx, cy float64) {
 func drawRingCase(t *rapid.T) (Case, string) {
 	var c Case
 	c.QSeed = rapid.Uint64().Draw(t, "qseed")
-	class := rapid.IntRange(0, 11).Draw(t, "class")
+	class := rapid.IntRange(0, 13).Draw(t, "class")
 	if class <= 4 {
 		// ---- lattice pictures (vertices on, edges along the box boundary)
 		f, fname := drawFrame(t)
@@ -215,6 +215,9 @@ func drawRingCase(t *rapid.T) (Case, string) {
 		}
 		return rescale(t, c), name + " / " + fname
 	}
+	if class >= 12 {
+		return rescale(t, drawFarVertices(t, c)), "lattice:small box, ring vertices 2^21..2^40 box sizes away"
+	}
 	if class >= 10 {
 		return rescale(t, drawFarRing(t, c)), "float:small box far from the origin, ring edges crossing at shallow angles"
 	}
@@ -309,6 +312,43 @@ func drawFarRing(t *rapid.T, c Case) Case {
 	c.G = gen.G{V: finishRing(t, ps)}
 	c.SplitX = gen.F(box.Min[0] + rapid.Float64Range(0.1, 0.9).Draw(t, "fx")*w)
 	c.SplitY = gen.F(box.Min[1] + rapid.Float64Range(0.1, 0.9).Draw(t, "fy")*h)
+	return c
+}
+
+// drawFarVertices (class M4): the box stays lattice sized, some ring vertices are 2^21..2^40 box
+// sizes away: c +/- 2^k*(dx,dy) with c on the half-lattice near the box and small integer
+// directions, often as an opposite pair so that the edge between them passes through c obliquely
+// (through the box when c is inside, outside it otherwise). Only PART of the case is rescaled.
+func drawFarVertices(t *rapid.T, c Case) Case {
+	x0 := rapid.IntRange(0, 3).Draw(t, "bx0")
+	y0 := rapid.IntRange(0, 3).Draw(t, "by0")
+	w := rapid.IntRange(1, 2).Draw(t, "bw")
+	h := rapid.IntRange(1, 2).Draw(t, "bh")
+	box := orb.Bound{Min: orb.Point{float64(x0), float64(y0)}, Max: orb.Point{float64(x0 + w), float64(y0 + h)}}
+	near := func() orb.Point {
+		return orb.Point{float64(rapid.IntRange(2*x0-3, 2*(x0+w)+3).Draw(t, "cx")) / 2 / 2 * 2, float64(rapid.IntRange(4*y0-6, 4*(y0+h)+6).Draw(t, "cy")) / 4}
+	}
+	n := rapid.IntRange(3, 7).Draw(t, "n")
+	var ps []orb.Point
+	for len(ps) < n {
+		cpt := near()
+		if rapid.IntRange(0, 3).Draw(t, "nearvertex") == 0 {
+			ps = append(ps, cpt)
+			continue
+		}
+		dx, dy := rapid.IntRange(-2, 2).Draw(t, "dx"), rapid.IntRange(-2, 2).Draw(t, "dy")
+		if dx == 0 && dy == 0 {
+			dx = 1
+		}
+		f := math.Ldexp(1, rapid.IntRange(21, 40).Draw(t, "k"))
+		ps = append(ps, orb.Point{cpt[0] + f*float64(dx), cpt[1] + f*float64(dy)})
+		if rapid.Bool().Draw(t, "pair") && len(ps) < n {
+			ps = append(ps, orb.Point{cpt[0] - f*float64(dx), cpt[1] - f*float64(dy)})
+		}
+	}
+	c.Box = gen.FromBound(box)
+	c.G = gen.G{V: finishRing(t, ps)}
+	c.SplitX, c.SplitY = gen.F(float64(x0)+0.5), gen.F(float64(y0)+0.5)
 	return c
 }
 
@@ -638,6 +678,7 @@ func TestPropRings(t *testing.T) {
 	})
 	sh, _ := stats.Shard()
 	stats.Note(fmt.Sprintf("worst_area_error_over_tolerance_shard%d", sh), fmt.Sprintf("%.3g", worstArea))
+	stats.Note(fmt.Sprintf("membership_queries_judged_exactly_on_far_rings_shard%d", sh), fmt.Sprintf("%d", farQueries))
 }
 
 func TestPropGeometry(t *testing.T) {
